@@ -10,12 +10,14 @@ TLC : one run per data type.  Every sequence of <= MaxSteps mutating operations,
       coverage guard (every named action taken) and Witness_* reachability predicates that must be violated.
       A further run with Interleave=TRUE explores every sequence of <= 3 operations of both sorts.
 Bind: the state graph is dumped and EVERY edge is replayed on the real classes (harness/replay/collections.py) under
-      every (instantiation, operand form): SortedSet over ints, tuples and unhashable lists with the other operand
-      given as SortedSet / set / frozenset / list (methods, operators, reflected operators, variadic calls, aliased
-      operand s op= s); OrderedMap over int, tuple, list and dict keys; OrderedMapSerializedKey over list<int> keys
-      where [1,2] and (1,2) (same CQL encoding) denote one key and the replayer alternates between them.  After every
-      call the result (or exception class) and the projected state (list(s), len; list(m.items()), len, lookups of
-      every key) must equal the specification's.
+      every instantiation and, per edge, every operand form the class offers: SortedSet over ints, tuples and
+      unhashable lists with the other operand given as SortedSet / set / frozenset / list (methods, operators,
+      reflected operators, variadic calls, aliased operand s op= s); OrderedMap over int, tuple, list and dict keys;
+      OrderedMapSerializedKey over list<int> keys where [1,2] and (1,2) (same CQL encoding) denote one key and every
+      key-taking edge is executed with both.  After every call the result (or exception class) and the projected
+      state (list(s), len; list(m.items()), len, lookups of every key) must equal the specification's.  The graph
+      is walked depth-first, branching the live object by a structural copy of its __dict__; in addition random
+      maximal walks are replayed from scratch on fresh objects.
 """
 import os
 import time
@@ -57,8 +59,6 @@ ALL16 = [frozenset(x) for x in ((), (1,), (2,), (3,), (4,), (1, 2), (1, 3), (1, 
 QUICK8 = [frozenset(x) for x in ((), (1,), (4,), (2, 3), (1, 4), (1, 2, 3), (2, 3, 4), (1, 2, 3, 4))]
 SMALL4 = [frozenset(x) for x in ((), (2,), (1, 3), (2, 3, 4))]
 
-CLASSNAME = {"set": "SortedSet"}
-
 
 def constants(kind, n, operands, steps, interleave=False, max_new=2, full_map_ops=False, observe_at=None):
     return {"Kind": '"%s"' % kind, "N": n, "Operands": set(operands), "Vals": {1, 2}, "MaxNew": max_new,
@@ -73,8 +73,8 @@ def plans(ctx):
                 ("map N=3 depth=4", constants("map", 3, [], 4, observe_at=(0, 1, 4))),
                 ("set interleaved N=4 operands=4 depth=2", constants("set", 4, SMALL4, 2, interleave=True))]
     return [("set N=4 operands=16 depth=5", constants("set", 4, ALL16, 5, observe_at=(0, 1, 2, 5))),
-            ("map N=3 depth=5 all-operands", constants("map", 3, [], 5, max_new=3, full_map_ops=True)),
-            ("map N=4 depth=4", constants("map", 4, [], 4)),
+            ("map N=3 depth=5 all-operands", constants("map", 3, [], 5, max_new=3, full_map_ops=True, observe_at=(0, 1, 5))),
+            ("map N=4 depth=4", constants("map", 4, [], 4, observe_at=(0, 1, 2, 4))),
             ("set interleaved N=4 operands=4 depth=3", constants("set", 4, SMALL4, 3, interleave=True)),
             ("map interleaved N=3 depth=3", constants("map", 3, [], 3, interleave=True))]
 
